@@ -82,6 +82,9 @@ def walk_module(m, what):
 
 def check_project_spec(ctx, spec):
     p = build.make_project(spec)
+    if len(repr(spec)) % 3 == 0 and build.failed_save_in_past(p, len(repr(spec)) // 3):
+        # the object has a save (of the project, or the export of one of its modules) in its past that failed
+        ctx.label("failed_save_in_the_past")
     snap = snapshot.snap_project(p)
     data = p.read()
     # "every file the library writes": the other ways of writing (write_to a stream / a file opened
